@@ -103,6 +103,17 @@ def _case(draw):
         {'id_prefixes': ['Bar', 'Foo', 'Baz', 'Qux'], 'sym_prefixes': None},
     ])))
     base['c_includes'] = draw(st.lists(st.sampled_from(['foo.h', 'foo-extra.h', 'a.h']), max_size=3, unique=True))
+    # several include directories holding different copies of one dependency (build tree next to an installed copy):
+    # which copy is used is a function of the ORDER of the directories given, never of the hash seed
+    if draw(st.integers(0, 2)) == 0:
+        base['shadow_includes'] = draw(st.lists(st.fixed_dictionaries({'pos': st.sampled_from(['before', 'after']),
+                                                                        'drop': st.sampled_from(['Thing', 'Id', 'Thing'])}),
+                                                min_size=1, max_size=3))
+        if 'FooBar-1.0' not in base['includes']:
+            base['includes'] = list(base['includes']) + ['FooBar-1.0']
+        base['decls'] = list(base['decls']) + [{'d': 'function', 'name': 'foo_use_thing', 'ret': apigen.VOID,
+                                                'params': [apigen.param('thing', apigen.T('FooBarThing', 1)),
+                                                           apigen.param('id', apigen.T('FooBarId'))]}]
     return base
 
 
@@ -145,6 +156,9 @@ def check_case(case, ctx):
     core = dict((k, case[k]) for k in ('ns', 'includes', 'decls', 'comments', 'dump'))
     core['packages'] = case.get('packages', [])
     core['c_includes'] = case.get('c_includes', [])
+    core['shadow_includes'] = case.get('shadow_includes', [])
+    if core['shadow_includes']:
+        ctx.label('shadowed-dependency')
     # spread blocks over files; positions travel with the blocks so the permutation is the only change
     comments = [[c[0], case['files'][i] if i < len(case.get('files', [])) else c[1], c[2]] for i, c in enumerate(core['comments'])]
     core['comments'] = comments
